@@ -34,7 +34,7 @@ func init() {
 		Families: []family{
 			{Name: "cause-x-load", Fn: scnC08, Weight: 1, Group: len(c08Causes) * len(c08Loads)},
 		},
-		Rule: "matrix cause (14: EOF / EIO on either pipe, malformed audit line, output write error on a UserLogin / a UserAction / a hold-queue flush, either input path not a pipe or missing, " +
+		Rule: "matrix cause (14: EOF / EIO on either pipe, malformed audit line, output write error on a UserLogin / a UserAction / a hold-queue flush, either input path not a pipe (a regular file, or the character device /dev/zero) or missing, " +
 			"cancellation as stand-in for SIGTERM/SIGINT, invalid login) x load (idle; mid-traffic, in a third of the runs after a short session whose records all preceded its login line; saturated = the line consumer is starved until the internal buffer is full, capacities {1,2,8,64,10000}, and the audit writer " +
 			"keeps feeding after the fault; sustained = the audit writer never pauses; other-pipe-without-writer = the pipe not involved in the cause has no writer attached yet) enumerated within each group of runs, " +
 			"x log level {info, debug} x audit-metrics worker {off, on} x schedule policy x fault instant x (taped) one more accepted login right after the fault; after the fault a fair schedule (run-to-block, or uniformly random turns with the line consumer as the slow side under load) " +
@@ -60,6 +60,13 @@ func scnC08(rc *RunCtx) {
 	rc.Sim.Knobs["auditLogChanBufSize"] = capacity
 	rc.Sim.Knobs["bufio"] = []int{4096, 64}[t.Choose(2, "bufio")]
 	sshdPath, auditPath := sp, ap
+	if strings.HasSuffix(cause, "-not-a-pipe") && t.Choose(3, "notpipe.kind") == 2 {
+		// neither a pipe nor a regular file: a character device whose reads never end
+		if fi, err := os.Stat("/dev/zero"); err == nil && fi.Mode()&os.ModeCharDevice != 0 {
+			regular = "/dev/zero"
+			rc.Sim.Count("c08.path_is_char_device")
+		}
+	}
 	switch cause {
 	case "sshd-path-not-a-pipe":
 		sshdPath = regular
